@@ -55,6 +55,17 @@ var zzTables = [][]zzOp{
 	{zzH("/f/{-k:a|b}/l", "GET"), zzH("/g/{-k:a|bc}x/{n}", "GET"), zzH("/h/{k:a|b}/l", "GET")},
 	// 16: exactly five literal siblings, one removed (the index threshold is crossed downwards)
 	{zzH("/a", "GET"), zzH("/b", "GET"), zzH("/c", "GET"), zzH("/d", "GET"), zzH("/e", "GET"), zzRm("/b")},
+	// 17: ignored-name regexps whose rule has its own capture group; a capturing one beside them
+	{zzH("/i/{n}.{-e:(j|p)}", "GET"), zzH("/j/{-e:(a)(b)?}/{n}", "GET"), zzH("/k/{e:(j|p)}", "GET")},
+	// 18: an endpoint whose only children lead through handler-less nodes that can eat the whole rest of the path
+	{zzH("/p", "GET"), zzH("/p/{id}/a", "GET"), zzH("/p/{id}/e", "GET"), zzH("/q", "GET"), zzH("/q/b", "GET"), zzH("/q/b/c", "POST"), zzRm("/q/b")},
+	// 19: a prefix that is itself a route (ending at a node boundary) is cleaned, literal and parameter prefix
+	{zzH("/v", "GET"), zzH("/v/1", "GET"), zzH("/v/{z}", "POST"), zzH("/w/{k:\\d+}", "GET"), zzH("/w/{k:\\d+}/u", "GET"), zzH("/x", "GET"), zzPCl("/v"), zzPCl("/w/{k:\\d+}")},
+	// 20: five literal siblings, one of which starts with a non-ASCII byte, and a parameter sibling
+	{zzH("/t/a", "GET"), zzH("/t/b", "GET"), zzH("/t/\u4e2d", "GET"), zzH("/t/c", "GET"), zzH("/t/d", "GET"), zzH("/t/{n}", "POST")},
+	// 21: one removal prunes two levels below an indexed parent (branch registered first / last)
+	{zzH("/c/{id}", "GET"), zzH("/a", "GET"), zzH("/b", "GET"), zzH("/d", "GET"), zzH("/e", "GET"), zzRm("/c/{id}")},
+	{zzH("/a", "GET"), zzH("/b", "GET"), zzH("/d", "GET"), zzH("/e", "GET"), zzH("/c/{id}", "GET"), zzH("/{x}", "POST"), zzRm("/c/{id}")},
 }
 
 var zzMethods = []string{"GET", "HEAD", "POST", "OPTIONS", "DELETE", "PUT", "TRACE", "", "BOGUS"}
